@@ -166,6 +166,7 @@ int ABT_rwlock_rdlock(ABT_rwlock rwlock)
     }
     if (abt_errno == ABT_SUCCESS) {
         p_rwlock->reader_count++;
+        ABTI_VERIF_EV(ABTI_VEV_DATA, p_rwlock, 1, p_rwlock->reader_count);
     }
     ABTI_mutex_unlock(p_local, &p_rwlock->mutex);
     ABTI_CHECK_ERROR(abt_errno);
@@ -230,6 +231,7 @@ int ABT_rwlock_wrlock(ABT_rwlock rwlock)
     }
     if (abt_errno == ABT_SUCCESS) {
         p_rwlock->write_flag = 1;
+        ABTI_VERIF_EV(ABTI_VEV_DATA, p_rwlock, 2, 1);
     }
     ABTI_mutex_unlock(p_local, &p_rwlock->mutex);
     ABTI_CHECK_ERROR(abt_errno);
@@ -271,9 +273,11 @@ int ABT_rwlock_unlock(ABT_rwlock rwlock)
     ABTI_mutex_lock(&p_local, &p_rwlock->mutex);
     if (p_rwlock->write_flag) {
         p_rwlock->write_flag = 0;
+        ABTI_VERIF_EV(ABTI_VEV_DATA, p_rwlock, 2, 0);
     } else {
         ABTI_UB_ASSERT(p_rwlock->reader_count > 0);
         p_rwlock->reader_count--;
+        ABTI_VERIF_EV(ABTI_VEV_DATA, p_rwlock, 1, p_rwlock->reader_count);
     }
     ABTI_cond_broadcast(p_local, &p_rwlock->cond);
     ABTI_mutex_unlock(p_local, &p_rwlock->mutex);
